@@ -21,7 +21,8 @@ Local Open Scope string_scope.
 
 Inductive ev :=
   | ERef (x : string)          (* Cudd_Ref / cuddRef / sylvan_ref / bdd_addref / ._incref  on x *)
-  | EDeref (x : string)        (* Cudd_RecursiveDeref[Zdd] / Cudd_Deref / cuddDeref / sylvan_deref / bdd_delref / ._decref *)
+  | EDeref (x : string)        (* Cudd_RecursiveDeref[Zdd] / sylvan_deref / bdd_delref / ._decref: may reclaim the node *)
+  | EDerefLight (x : string)   (* Cudd_Deref / cuddDeref: decrement only, the node is not reclaimed *)
   | EOwned (x : string)        (* x = result of a library call documented to return a referenced node *)
   | EStore (c x : string)      (* c[..] = x : one reference of x now belongs to container c *)
   | EFill (c : string)         (* call of a wrapper function that stores referenced nodes into its argument c *)
@@ -77,8 +78,18 @@ Definition emptyb (l : list string) : bool := match l with [] => true | _ => fal
 
 (** effect of one repetition of a loop body on the held references *)
 Inductive effect := FxNeutral | FxFill (c : string) | FxDrain (c : string) | FxBad.
+(** [rel x]: marker "the function's own reference on x was given back and x
+    has not been referenced again": using x afterwards (wrapping it, storing
+    it, returning it) is a use after release *)
+Definition rel (x : string) : string := "!" +:+ x.
+Definition is_marker (y : string) : bool := String.prefix "!" y.
+Definition strip (held : list string) : list string :=
+  List.filter (fun y => negb (is_marker y)) held.
+Definition unmark (x : string) (held : list string) : list string :=
+  List.filter (fun y => negb (bool_decide (y = rel x))) held.
+
 Definition effect_of (before after : list string) : effect :=
-  match msub after before with
+  match msub (strip after) (strip before) with
   | ([], []) => FxNeutral
   | ([c], []) => if bool_decide (String.prefix "@" c = true) then FxFill c else FxBad
   | ([], [c]) => if bool_decide (String.prefix "@" c = true) then FxDrain c else FxBad
@@ -104,14 +115,21 @@ Fixpoint loop_effect (fx : list effect) (acc : effect) : effect :=
 Section run.
   Context (kind : fkind) (params : list string).
 
-  Definition at_exit (held : list string) : outcome := ODone (emptyb held).
+  Definition at_exit (held : list string) : outcome := ODone (emptyb (strip held)).
+  Definition released (x : string) (held : list string) : bool := bool_decide (rel x ∈ held).
 
   (** [inloop]: a container may only be drained by a loop *)
   Fixpoint step (e : ev) (inloop : bool) (held : list string) : outcome :=
     match e with
-    | ERef x | EOwned x => OCont (x :: held)
-    | EDeref x => match remove1 x held with Some h => OCont h | None => ODone false end
+    | ERef x | EOwned x => OCont (x :: unmark x held)
+    | EDeref x =>
+        match remove1 x held with
+        | Some h => OCont (if bool_decide (x ∈ h) then h else rel x :: h)
+        | None => ODone false
+        end
+    | EDerefLight x => match remove1 x held with Some h => OCont h | None => ODone false end
     | EStore c x =>
+        if released x held then ODone false else
         match remove1 x held with
         | Some h => OCont (if bool_decide (c ∈ params) then h else tok c :: h)
         | None => ODone false
@@ -121,7 +139,7 @@ Section run.
         if negb inloop then ODone false
         else if bool_decide (c ∈ params) then OCont held
         else match remove1 (tok c) held with Some h => OCont h | None => ODone false end
-    | EWrap _ => OCont held
+    | EWrap x => if released x held then ODone false else OCont held
     | ELoop bodies =>
         let run_body :=
           fix rb (b : list ev) (h : list string) : outcome :=
@@ -146,11 +164,13 @@ Section run.
           end
         else ODone false
     | EReturnWrapped _ | EReturnOther => at_exit held
-    | EReturnNode _ =>
+    | EReturnNode x =>
         (* a bare node may only travel between C-level functions *)
+        if released x held then ODone false else
         if bool_decide (kind = KCdef) then at_exit held else ODone false
     | ERaise => ODone true
-    | ESetNode _ | EClearNode | ENotLive | ENew _ | EInit _ _ | EReturnHandle _ => OCont held
+    | EInit _ x => if released x held then ODone false else OCont held
+    | ESetNode _ | EClearNode | ENotLive | ENew _ | EReturnHandle _ => OCont held
     end.
 
   Fixpoint run (p : list ev) (held : list string) : outcome :=
@@ -169,7 +189,7 @@ Fixpoint refs (p : list ev) : list string :=
 Fixpoint derefs (p : list ev) : list string :=
   match p with
   | [] => []
-  | EDeref x :: p' => x :: derefs p'
+  | EDeref x :: p' | EDerefLight x :: p' => x :: derefs p'
   | _ :: p' => derefs p'
   end.
 Fixpoint wraps (p : list ev) : list string :=
@@ -180,7 +200,7 @@ Fixpoint wraps (p : list ev) : list string :=
   end.
 Definition is_simple (e : ev) : bool :=
   match e with
-  | ERef _ | EDeref _ | EReturnOther | ERaise => true
+  | ERef _ | EDeref _ | EDerefLight _ | EReturnOther | ERaise => true
   | _ => false
   end.
 Fixpoint ends_in_raise (p : list ev) : bool :=
@@ -216,7 +236,7 @@ Definition balanced_in (m : method) (p : list ev) : bool :=
   | None =>
       bool_decide (NoDup (wraps p)) &&
       match run (m_kind m) (m_params m) p [] with
-      | OCont h => emptyb h        (* fell off the end: `return None` *)
+      | OCont h => emptyb (strip h)   (* fell off the end: `return None` *)
       | ODone ok => ok
       end
   end.
